@@ -401,6 +401,7 @@ func checkC10(r *evid.Run) {
 		})
 	}
 	bigRoots(r, pool)
+	longLinesAndBlocks(r, pool)
 	reproduceOpenC10(r, pool)
 	r.Set("exhaustive", false)
 	r.Set("rule", "documents of the spelling model MC_C15 (every notation incl. # roots, blank lines, CRLF; a third of the states), of the malformed-line pool MC_C02 (all states) and of MC_C01 (half), each run through text, JSON, YAML, dry-run, walk (all) and mkdir, verify (every fourth) in simple and in massive mode with GOMAXPROCS in {1,2,4,16}, seeded hook delays and yielding reader/writer/callback; massive output must be a permutation of the specification's per-root blocks, each in one piece; error iff simple mode; same filesystem; the first tree of every third accepted document also built with NewRoot/Add and run through the From-Root operations (text, JSON, dry-run, walk) with and without the massive option (equal results); non-trivial = at least 2 roots")
@@ -455,6 +456,45 @@ func reproduceOpenC10(r *evid.Run, pool *wproto.Pool) {
 
 // bigRoots: roots whose printed form exceeds any buffer size in use (several KiB each), written through
 // a yielding writer by several sink workers at once: every root block must still come out in one piece.
+// longLinesAndBlocks: what the line scanner's limits are about - a line of several KiB (below the 64 KiB limit both modes
+// share) and a root block far beyond 64 KiB: both modes accept them and give the same result.
+func longLinesAndBlocks(r *evid.Run, pool *wproto.Pool) {
+	docs := map[string]string{
+		"line-5000":  "- a\n  - " + strings.Repeat("n", 5000) + "\n    - below\n- b\n",
+		"line-40000": "- " + strings.Repeat("r", 40000) + "\n  - c\n- b\n  - d\n",
+		"block-100KiB": func() string {
+			var sb strings.Builder
+			sb.WriteString("- first\n  - x\n- big\n")
+			for i := 0; sb.Len() < 100<<10; i++ {
+				fmt.Fprintf(&sb, "  - child %d\n", i)
+			}
+			sb.WriteString("- last\n")
+			return sb.String()
+		}(),
+	}
+	for name, doc := range docs {
+		for _, route := range []string{"text", "json", "walk"} {
+			rq := wproto.Req{Op: "output", Doc: doc}
+			switch route {
+			case "json":
+				rq.Format = "json"
+			case "walk":
+				rq.Op = "walk"
+			}
+			simple := pool.Call(rq, 60*time.Second)
+			mq := rq
+			mq.Massive = true
+			massive := pool.Call(mq, 120*time.Second)
+			r.Count("real_calls", 2)
+			same := simple.Class == massive.Class && sortedLines(simple.Out) == sortedLines(massive.Out) && sameStrs(sortedCopy(simple.Walk), sortedCopy(massive.Walk))
+			if simple.Class != "ok" || !same {
+				r.Mismatch("massive-"+route+":long-line-or-block:"+name, fmt.Sprintf("document %s (%d bytes): simple=%s(%q) %d bytes out, massive=%s(%q) %d bytes out", name, len(doc), simple.Class, clip(simple.Err, 100), len(simple.Out), massive.Class, clip(massive.Err, 100), len(massive.Out)),
+					map[string]any{"document": name, "route": route})
+			}
+		}
+	}
+}
+
 func bigRoots(r *evid.Run, pool *wproto.Pool) {
 	for rep, nroots := range []int{6, 12} {
 		var doc strings.Builder
